@@ -180,21 +180,29 @@ pub fn run(ctx: Ctx) -> ! {
             } else {
                 "imbalance"
             };
-            let family = if b.era == Era::Conway { "conway-values" } else { "alonzo-values" };
+            // duplicate / missing inputs are handled by each era module's own get_consumed;
+            // quantity arithmetic lives in utils.rs, shared by Shelley-MA / Alonzo / Babbage
+            let family = if class == "duplicate-input" || class == "input-missing-from-utxo" {
+                b.era.group()
+            } else if b.era == Era::Conway {
+                "conway-values"
+            } else {
+                "alonzo-values"
+            };
             let what = diff.iter().map(|(a, c, p)| format!("{a}: spent+minted {c} != produced+fee {p}")).collect::<Vec<_>>().join("; ");
             found.add(format!("c34:{class}:{family}"), nd, format!("accepted {} tx does not conserve value: {what}", b.era.name()), b, v);
         }
     });
     if unreadable.load(Ordering::Relaxed) > 0 {
-        mc_core::report::machinery_failure(&format!("{} accepted artefacts could not be read back by the refcbor view", unreadable.load(Ordering::Relaxed)));
+        crate::fail(&format!("{} accepted artefacts could not be read back by the refcbor view", unreadable.load(Ordering::Relaxed)));
     }
     for era in ALL_ERAS {
         if sum.accepted(era) == 0 {
-            mc_core::report::machinery_failure(&format!("C34 vacuous: no accepted case in era {}", era.name()));
+            crate::fail(&format!("C34 vacuous: no accepted case in era {}", era.name()));
         }
     }
     if checked_assets.load(Ordering::Relaxed) == 0 {
-        mc_core::report::machinery_failure("C34 vacuous: no accepted case with native assets");
+        crate::fail("C34 vacuous: no accepted case with native assets");
     }
     found.flush(&ctx);
     let mut cov = sum.coverage(
